@@ -254,4 +254,20 @@ def compare(m: Model, ex: Expect, nodes: set, imps: set, exclude_external=True):
         bad_e = sorted((a, b) for a, b in imps if b in got_external and ex.ext_forbidden(b))
         if bad_e:
             out.append(("external", "excluded-external-imported", f"imports of excluded externals present: {bad_e[:4]}", bad_e))
+        if ex.total_limit is None:
+            # exactness of the external side: every module outside module_path is a module some import statement can mean
+            # (any of its readings) or an ancestor package of one; every import of such a module is written in its importer
+            allowed_nodes, allowed_edges = set(), set()
+            for s in m.statements:
+                for a in s.alternatives:
+                    if a is not None:
+                        allowed_nodes.add(a)
+                        allowed_nodes.update(ancestors(a))
+                        allowed_edges.add((s.importer, a))
+            phantom = sorted(got_external - allowed_nodes)
+            if phantom:
+                out.append(("external", "phantom-external-node", f"modules outside module_path that no import statement names: {phantom[:6]}", phantom))
+            phantom_e = sorted((a, b) for a, b in imps if b in got_external and (a, b) not in allowed_edges)
+            if phantom_e:
+                out.append(("external", "phantom-external-import", f"imports of external modules that no statement of the importer writes: {phantom_e[:4]}", phantom_e))
     return out
